@@ -347,6 +347,30 @@ class ExtendedKalmanFilter:
                     extra = f"\nExtra: {extra_from_map}"
                 raise ModelConstructionError(f"Mismatched Calibration:{missing}{extra}")
 
+        # Same structural checks as the Python ExtendedKalmanFilter, otherwise
+        # missing entries silently fall back to defaults in the generated code
+        missing_process_noise = set(state_model.control) - set(process_noise.keys())
+        if len(missing_process_noise) > 0:
+            raise ModelConstructionError(
+                f"Process noise missing for control: {sorted(str(k) for k in missing_process_noise)}"
+            )
+        for key, value in process_noise.items():
+            if value < 0.0:
+                raise ModelConstructionError(
+                    f"Negative process noise for control {key}: {value}"
+                )
+        if set(sensor_models.keys()) != set(sensor_noises.keys()):
+            raise ModelConstructionError(
+                f"Mismatched sensors: models {sorted(str(k) for k in sensor_models)} noises {sorted(str(k) for k in sensor_noises)}"
+            )
+        for key, model in sensor_models.items():
+            readings = {str(k) for k in model.keys()}
+            noises = {str(k) for k in sensor_noises[key].keys()}
+            if readings != noises:
+                raise ModelConstructionError(
+                    f"Mismatched readings for sensor {key}: models {sorted(readings)} noises {sorted(noises)}"
+                )
+
         self._process_model = BasicBlock(
             statements=self._translate_process_model(state_model),
             indent=4,
